@@ -147,6 +147,9 @@ def _run(eng, world, contracts, qual, res, timeout_ms, concretise, keep_smt):
     st.ghost['$cx'] = cx
     cx.st0 = st.fork()
     pre = con.pre(cx) if con.pre else []
+    if con.axioms:
+        for a_ in con.axioms(cx):
+            st.assume(a_)
     for it in pre:
         st.assume(it[1] if isinstance(it, tuple) else it)
     cx.st0 = st.fork()
